@@ -80,7 +80,7 @@ def sys_owner(line, pid, msg):
 
 ENGINES["sys"] = dict(
     drv="sys", starts=("sreset",), trivial=r"=> U ; drop$", diverge_owner=sys_owner,
-    branches=["sys.fresh-process", "sys.file-ok", "sys4.request", "sys4.not-bootrequest", "sys4.other-type", "sys4.unparsable", "sys4.drop", "sys4.dropped-by-plugin",
+    branches=["sys.fresh-process", "sys.file-ok", "sys.range-ok", "sys.range-new", "sys.range-known", "sys.range-exhausted", "sys4.request", "sys4.not-bootrequest", "sys4.other-type", "sys4.unparsable", "sys4.drop", "sys4.dropped-by-plugin",
               "sys4.l2", "sys4.routed", "sys4.pinned", "sys4.unpinned", "sys4.l2-no-interface", "sys4.address-assigned", "sys4.options-added", "sys4.chain-len-4",
               "sys6.direct", "sys6.relayed", "sys6.supported", "sys6.unsupported", "sys6.drop", "sys6.dropped-after-stub", "sys6.pinned", "sys6.unpinned",
               "sys6.options-added", "sys6.address-assigned", "sys6.chain-len-4"],
@@ -200,7 +200,7 @@ PROPS = {
         theorems=["C11_holds", "C11_never_answers_non_requests", "SYS_C11", "SYS_frame4"],
         modules=["CoreDhcp.Props.C11", "CoreDhcp.Props.System"],
         trusted_base=[TB_CODEC, TB_HOOK],
-        assumptions=["C11_holds: handlers preserve the echoed fields and keep the reply type (Handler4.Preserving): true of the scripted handlers of the run. SYS_C11 has no such hypothesis: it is about every chain of built-in option plugins, server_id and file (composed model, tied by the sys engine); range is not an element of the composed model",
+        assumptions=["C11_holds: handlers preserve the echoed fields and keep the reply type (Handler4.Preserving): true of the scripted handlers of the run. SYS_C11 has no such hypothesis: it is about every chain of built-in option plugins, server_id, file and range (composed model, tied by the sys engine)",
                      "'every byte string' is 'every parse result, or parse failure': the byte parser is the library's"],
     ),
     "C12": dict(
@@ -301,7 +301,7 @@ RULES = {
     "plugins": "configurations over synthetic registered plugins (dual, v4-only, v6-only, unsupported, unknown names, failing / nil-returning setups); trivial = both protocols unconfigured",
     "plug": "per built-in plugin: argument vectors from valid, boundary and invalid values of each argument kind and wrong arity, each set up in a fresh process, followed by 6..15 requests (all request-list shapes incl. absent and empty, option 116/54/siaddr/server-id variants, OFFER/ACK/NAK, assigned/unassigned yiaddr, pre-existing options); trivial = a rejected configuration",
     "config": "YAML documents from the configuration grammar (sections present or not, listen scalar/list/absent/non-scalar, every address/zone/port spelling, interface alias, plugin item shapes) plus mutated text; trivial = unreadable document",
-    "sys": "chains of 0..7 distinct real built-in plugins (option plugins, server_id, file) in any order, arguments from the plug engine's valid/boundary/invalid pools (a rejected set-up leaves the chain shorter), fresh process per chain; 8..27 datagrams each from the plug engine's request battery (request-list shapes, siaddr x option 54 matrix) plus giaddr/ciaddr/broadcast/option 82/61 variants (v4) or all message types, client-id kinds, server-id own/other, ORO shapes, IA_NA, rapid commit, relay nesting with Relay-Reply layers (v6), one in six mutated; the whole reply (every header field and option, destination, port, interface, link-layer flag) is compared with the composed model; trivial = unparsable datagram",
+    "sys": "chains of 0..7 distinct real built-in plugins (option plugins, server_id, file, range on 2..7 addresses) in any order, arguments from the plug engine's valid/boundary/invalid pools (a rejected set-up leaves the chain shorter), fresh process per chain; 8..27 datagrams each from the plug engine's request battery (request-list shapes, siaddr x option 54 matrix) plus giaddr/ciaddr/broadcast/option 82/61 variants (v4) or all message types, client-id kinds, server-id own/other, ORO shapes, IA_NA, rapid commit, relay nesting with Relay-Reply layers (v6), one in six mutated; the whole reply (every header field and option, destination, port, interface, link-layer flag) is compared with the composed model; trivial = unparsable datagram",
     "chain": "random subsets and orders of the real built-in plugins with valid arguments (fresh process per chain), 10..40 well-formed and mutated datagrams each; trivial = dropped datagram",
     "filec": "static lease file under autorefresh, both protocols: 8 goroutines looking one client up as fast as they can while the file is rewritten in place over and over, alternately with two versions that differ in one byte (150 ms per burst, 600 ms in the thorough tier); every answer must be the old or the new file's, all lookups must return, the table must settle on the last version",
     "allocc": "k goroutines allocating / freeing at once on nearly full pools; outcomes judged by linearisability search",
